@@ -242,7 +242,7 @@ class ParticleReleaser(Iterator[pd.DataFrame]):
         )
 
         # pandas from version 2 has trouble reading time
-        if int(pd.__version__.split(".")[0]) >= 2:
+        if not pd.__version__.startswith(("0.", "1.")):
             kwargs["date_format"] = "ISO8601"
         try:
             df = pd.read_csv(rls_file, **kwargs)
